@@ -291,10 +291,11 @@ def getIDValue (E : Env) (g : Nat) (x : Extra) : Res (Option GRef) :=
   | none => .panic
   | some g' => idInner E g' x
 
-/-- `r.getIDValue(g, v.Extra)` where `v.Extra` may be nil (identifiers true/false, unresolved) -/
+/-- `r.getIDValue(g, v.Extra)` where `v.Extra` may be nil (identifiers true/false, unresolved): an identifier
+    that names nothing is "not found" (`if extra == nil { return "", false }`) -/
 def getID (E : Env) (g : Nat) (x : Option Extra) : Res (Option GRef) :=
   match x with
-  | none => .panic
+  | none => .ok none
   | some x => getIDValue E g x
 
 def bTrue : Bytes := [116, 114, 117, 101]
@@ -1053,8 +1054,7 @@ def idResolves (E : Env) (g : Nat) (x : Option Extra) : Bool :=
   | .ok (some _) => true
   | _ => false
 
-/-- looking the identifier up crashes (no Extra: `true`/`false` where no boolean is expected; a scope that
-    does not have the include) -/
+/-- looking the identifier up crashes (a scope that does not have the include) -/
 def idPanics (E : Env) (g : Nat) (x : Option Extra) : Bool :=
   match getID E g x with
   | .panic => true
